@@ -187,8 +187,8 @@ class ABNF:
         if self.opcode in (ABNF.OPCODE_CLOSE, ABNF.OPCODE_PONG) and not self.fin:
             raise WebSocketProtocolException("Invalid control frame: fragmented.")
 
-        if self.opcode == ABNF.OPCODE_PONG and len(self.data) >= 126:
-            raise WebSocketProtocolException("Invalid pong frame: too long.")
+        if self.opcode in (ABNF.OPCODE_PING, ABNF.OPCODE_PONG) and len(self.data) >= 126:
+            raise WebSocketProtocolException("Invalid control frame: too long.")
 
         if self.opcode == ABNF.OPCODE_CLOSE:
             l = len(self.data)
